@@ -254,6 +254,9 @@ def replay_case(case):
     return {"k": "src", "id": id_, "text": text, "filename": filename, "mode": mode, "opt": opt}
 
 
+_stormed = [False]
+
+
 def iter_cases(shard):
     """Yield (case, id, code, text) for every compilable case of a shard."""
     import time
@@ -266,6 +269,15 @@ def iter_cases(shard):
                                  "seq": case["id"], "seq_items": case["items"][:n + 1]})
         else:
             expanded.append(case)
+    if shard.get("storm") and not _stormed[0]:
+        # the process this shard runs in has already seen a burst of rejected calls (stress.fault_storm)
+        _stormed[0] = True
+        import stress
+        H.IN_STORM[0] = True
+        try:
+            stress.fault_storm(shard.get("seed", 0))
+        finally:
+            H.IN_STORM[0] = False
     for case in expanded:
         id_, code, text = compile_case(case)
         if code is None:
